@@ -263,6 +263,13 @@ func runFuzz(o *Options, res *Result, rng *RNG, n int, prop string) {
 		}
 		r := renderRun(key, data, 0, 0)
 		res.Hist("fuzz:render-" + r.Obs.ErrClass())
+		if r.Obs.Panic == "" && !r.Obs.Hang {
+			// and once more on a context that was used and reset (contexts are pooled in production)
+			if w := warmRun(key, data); w.Panic != "" || w.Hang {
+				r.Obs = w
+				res.Hist("fuzz:warm-" + w.ErrClass())
+			}
+		}
 		if r.Obs.Panic != "" && !r.Obs.InRepo() {
 			res.Hist("fuzz:external-panic:" + r.Obs.Frame)
 			continue
